@@ -265,6 +265,7 @@ impl Display for RegExp<'_> {
 fn indent_regexp(regexp: String, config: &RegExpConfig) -> String {
     let mut indented_regexp = vec![];
     let mut nesting_level = 0;
+    let color_replace_regex = Regex::new("\u{1b}\\[(?:\\d+;\\d+|0)m").unwrap();
 
     for (i, line) in regexp.lines().enumerate() {
         if i == 1 && config.is_start_anchor_disabled {
@@ -274,21 +275,18 @@ fn indent_regexp(regexp: String, config: &RegExpConfig) -> String {
             continue;
         }
 
-        let is_colored_line = line.starts_with("\u{1b}[");
+        // Indentation must not depend on syntax highlighting,
+        // so the line is inspected without its color codes.
+        let plain_line = color_replace_regex.replace_all(line, "");
 
-        if nesting_level > 0
-            && ((is_colored_line && (line.contains('$') || line.contains(')')))
-                || (line == "$" || line.starts_with(')')))
-        {
+        if nesting_level > 0 && (plain_line == "$" || plain_line.starts_with(')')) {
             nesting_level -= 1;
         }
 
         let indentation = "  ".repeat(nesting_level);
         indented_regexp.push(format!("{indentation}{line}"));
 
-        if (is_colored_line && (line.contains('^') || (i > 0 && line.contains('('))))
-            || (line == "^" || (i > 0 && line.starts_with('(')))
-        {
+        if plain_line == "^" || (i > 0 && plain_line.starts_with('(')) {
             nesting_level += 1;
         }
     }
